@@ -229,6 +229,14 @@ def audit(rec, p, maxiter, maxfun, gtol, ftarget=None, scale=1.0, ck=None, ftarg
         if b > a:
             bad["C03.objective_never_increases"] = "objective sequence %s increases" % (seq,)
             break
+    # ---- C02 (exact float comparisons)
+    pts = [q for q, _ in rec["fcalls"]] + [q for q, _ in rec["gcalls"]]
+    if any(np.any(q < lb) or np.any(q > ub) for q in pts):
+        q = next(q for q in pts if np.any(q < lb) or np.any(q > ub))
+        bad["C02.evaluation_points_in_box"] = "the objective/gradient was evaluated at %s, outside [%s, %s]" % (q.tolist(), lb.tolist(), ub.tolist())
+    rep = [s["x"]] + [st["snap"]["x"] for st in rec["states"]] + [st["xk"] for st in rec["states"]]
+    if any(np.any(q < lb) or np.any(q > ub) for q in rep):
+        bad["C02.reported_points_in_box"] = "a reported/returned point lies outside the box"
     # ---- C18 provenance
     sk, yk = s["sk"], s["yk"]
     if sk.shape[0] > maxcor:
@@ -846,3 +854,55 @@ def scenario_fault(c):
                         bad.setdefault("C20.fault_free_call_afterwards_unaffected", "after a %s in %s the clean call differs" % (et.__name__, kind))
         out.append(dict(problem=name, violated=bad))
     return dict(runs=out)
+
+
+@register("fd_modes")
+def fd_modes(c):
+    """C16 at run level on the real API: starts on the bounds / optimum on the bounds, all evaluations inside the box,
+    no exception, nfev counts every objective call, options passed through (observed by wrapping approx_derivative)."""
+    import lbfgsb.scalar_function as sfm
+    mode = c["jac"]
+    jac = None if mode in (None, "none") else mode
+    bad = {}
+    nruns = 0
+    real_ad = sfm.approx_derivative
+    for name, p in problems().items():
+        if name.startswith("expdrop"):
+            continue
+        lb, ub = p["bounds"][:, 0], p["bounds"][:, 1]
+        for x0 in (p["x0"], lb.copy(), ub.copy(), np.where(np.arange(lb.size) % 2 == 0, lb, ub)):
+            L = Logged(p)
+            seen = []
+
+            def spy(fun, x0_, **kw):
+                seen.append(dict(x0=np.array(x0_).copy(), kw=kw, nf=len(L.fcalls)))
+                return real_ad(fun, x0_, **kw)
+            sfm.approx_derivative = spy
+            try:
+                extra = dict(jac=jac)
+                if c.get("scaler"):
+                    extra["gradient_scaler"] = lambda x, g, l_, u_: 4.0
+                R = run_once(p, dict(maxiter=15, maxfun=10 ** 6, maxls=20, maxcor=5, ftol=0.0, gtol=1e-6), L=L, x0=x0, extra=extra)
+            finally:
+                sfm.approx_derivative = real_ad
+            nruns += 1
+            if R["exc"] is not None:
+                bad.setdefault("no_exception", "%s from x0=%s raises %s: %s" % (name, np.asarray(x0).tolist(), type(R["exc"]).__name__, R["exc"]))
+                continue
+            if any(np.any(q < lb) or np.any(q > ub) for q, _ in L.fcalls):
+                bad.setdefault("C16.evaluation_points_in_box", "%s: an objective evaluation (stencil included) lies outside the box" % name)
+            if R["snap"]["nfev"] != len(L.fcalls):
+                bad.setdefault("C16.nfev_counts_stencil_evaluations", "%s: nfev=%d but %d objective calls" % (name, R["snap"]["nfev"], len(L.fcalls)))
+            for s_ in seen:
+                kw = s_["kw"]
+                exp = "2-point" if jac is None else jac
+                b = kw.get("bounds")
+                ok_b = b is not None and np.array_equal(b[0], lb) and np.array_equal(b[1], ub)
+                f_here = next((v for q, v in reversed(L.fcalls[:s_["nf"]]) if np.array_equal(q, s_["x0"])), None)
+                if kw.get("method") != exp or not ok_b or (jac is None) != (kw.get("abs_step") is not None):
+                    bad.setdefault("C16.finite_difference_options_passed_through", "%s: approx_derivative called with method=%r abs_step=%r bounds ok=%s" % (name, kw.get("method"), kw.get("abs_step"), ok_b))
+                    bad.setdefault("C16.differencing_called_with_problem_bounds_and_current_value", bad["C16.finite_difference_options_passed_through"])
+                if f_here is None or kw.get("f0") != f_here:
+                    bad.setdefault("C16.f0_given_to_differencing_is_value_at_x", "%s: f0=%r handed to the differencing routine, objective at that point is %r" % (name, kw.get("f0"), f_here))
+                    bad.setdefault("C16.differencing_called_with_problem_bounds_and_current_value", bad["C16.f0_given_to_differencing_is_value_at_x"])
+    return dict(violated=bad, runs=nruns)
